@@ -63,6 +63,40 @@ def typedFns : List (String × String × String) := [
   ("t_json_cbor", "Post", ""), ("t_geturl_rkyv", "GetUrl", ""), ("t_postcard_msgpack", "Post", ""),
   ("t_cbor_app", "Post", "") ]
 
+def isPrefixB : Bytes → Bytes → Bool
+  | [], _ => true
+  | _ :: _, [] => false
+  | a :: as, b :: bs => a == b && isPrefixB as bs
+
+def containsSub (pat : Bytes) : Bytes → Bool
+  | [] => pat.isEmpty
+  | b :: bs => isPrefixB pat (b :: bs) || containsSub pat bs
+
+/-- replace every occurrence of `pat` (non-empty) by `rep`; `skip` = bytes of a match still to drop -/
+def replaceGo (pat rep : Bytes) : Nat → Bytes → Bytes
+  | _, [] => []
+  | k + 1, _ :: bs => replaceGo pat rep k bs
+  | 0, b :: bs =>
+    if isPrefixB pat (b :: bs) then rep ++ replaceGo pat rep (pat.length - 1) bs
+    else b :: replaceGo pat rep 0 bs
+
+def asciiB (s : String) : Bytes := s.toList.map Char.toNat
+
+/-- serde_qs (`GetUrl`, `PostUrl`, …) on the fixture type `Payload`, observed on the JSON rendering of the
+arguments: an empty sequence leaves no key behind (`missing field`), `Some("")` reads back as `None` -/
+def urlFixtureCodec (emptyErr : Str) : Codec Bytes where
+  enc := fun bs => .ok bs
+  dec := fun bs =>
+    if bs.isEmpty then .error emptyErr
+    else if containsSub (asciiB "\"list\":[]") bs then .error "missing field `list`".toList
+    else if containsSub (asciiB "\"nums\":[]") bs then .error "missing field `nums`".toList
+    else .ok (replaceGo (asciiB "\"opt\":\"\"") (asciiB "\"opt\":null") 0 bs)
+
+def urlClass (a : Bytes) : String :=
+  if containsSub (asciiB "\"list\":[]") a || containsSub (asciiB "\"nums\":[]") a then "urlenc-empty-vec"
+  else if containsSub (asciiB "\"opt\":\"\"") a then "urlenc-some-empty"
+  else "pipeline"
+
 def lookup3 (n : String) : List (String × String × String) → Option (String × String)
   | [] => none
   | (k, a, b) :: rest => if k == n then some (a, b) else lookup3 n rest
@@ -186,8 +220,9 @@ def step (_ : Unit) (line : String) : Unit × String :=
         match findEnc encName inputEncodings with
         | none => "bad-op"
         | some ie =>
-          let cls := if ie.slotsAgree then "pipeline" else "slot-mismatch"
-          let ci := opaqueCodec emptyErr.toList
+          let isUrl := ie.decErrKind == argsKind
+          let cls := if !ie.slotsAgree then "slot-mismatch" else if isUrl then urlClass a else "pipeline"
+          let ci := if isUrl then urlFixtureCodec emptyErr.toList else opaqueCodec emptyErr.toList
           let co := opaqueCodec []
           if fn == "t_cbor_app" then
             let body? : Option (Bytes → Except AppE Bytes) :=
